@@ -26,7 +26,8 @@ PROP = "C12"
 INV = ["C12_AllCallsReturn", "C12_NoLeakAfterClose", "C12_SingleInstance", "C12_SourceNotPinned", "C12_NoLeakedLock",
        "C01_RestoreEqualsSource", "C02_EveryTxidIsACommittedState", "C06_CompactedEqualsInputs", "C04_AckMeansReplicaAtLocalPos",
        "N_ReadLockWhileOpen"]
-MODEL_OPS = {"syncdb": ["syncdb"], "syncdb2": ["syncwait"], "disable": ["disable"], "enable": ["enable"], "snap": ["snapshot"]}
+MODEL_OPS = {"syncdb": ["syncdb"], "syncdb2": ["syncwait"], "disable": ["disable"], "enable": ["enable"], "snap": ["snapshot"],
+             "compact": ["compact", 1]}
 ALL_OPS = [["syncdb"], ["syncwait"], ["disable"], ["enable"], ["snapshot"], ["checkpoint", "PASSIVE"], ["checkpoint", "TRUNCATE"],
            ["compact", 1], ["replicasync"], ["status"], ["l0retention"], ["register"], ["unregister"], ["dbsync"], ["dbclose"],
            ["appwrite", 1], ["appwrite", 2], ["appgrow"], ["appcheckpoint", "PASSIVE"]]
@@ -147,9 +148,10 @@ def main():
             case = json.load(open(replay_path))["case"]
             cases = [{"id": 0, "cfg": case["cfg"], "sched": case["sched"], "label": "replay"}]
         else:
-            for cfgname, what in [("MC_Concurrency.cfg", "code as it is (a sync refuses to initialise a DB that is not open), processes {syncdb, syncdb2, disable, snap, enable}: LocksFree, NoDeadlock, NoLeakAfterClose"),
+            for cfgname, what in [("MC_Concurrency.cfg", "code as it is (a sync refuses to initialise a DB that is not open), processes {syncdb, syncdb2, disable, snap, enable, compact}: LocksFree, NoDeadlock, NoLeakAfterClose, ReadLockWhileOpen, NoDataRace"),
                                   ("MC_Concurrency_pinned.cfg", "negative control: the pinned code (re-initialises a closed DB): NoLeakAfterClose holds only modulo the Z1 shape"),
-                                  ("MC_Concurrency_q1.cfg", "NEGATIVE CONTROL: read transaction bound to the context of the request that began it (Q1): ReadLockWhileOpen must fail")]:
+                                  ("MC_Concurrency_q1.cfg", "NEGATIVE CONTROL: read transaction bound to the context of the request that began it (Q1): ReadLockWhileOpen must fail"),
+                                  ("MC_Concurrency_r.cfg", "NEGATIVE CONTROL: Open / init rewrite shared fields unconditionally (R2, R3): NoDataRace must fail")]:
                 r = vlib.run_tlc("Concurrency", cfgname, wd, workers=4, timeout=900)
                 vlib.tlc_expect_ok(r, cfgname)
                 rep.add_tlc(cfgname, r, what)
